@@ -143,6 +143,9 @@ CATALOGUE = {
             H("c05::proofs::c02_q_removed_id_used_again", Q, what="register, unregister(id), register, unregister(the same id again), deliver: exactly the one registered and never removed action runs", bounds="1 signal, concrete history"),
             H("c02::proofs::c02_enum_register_vs_register", Q, timeout=2400, what="register() with a complete register() + delivery of another thread at every point of it at which the writer mutex is free (point index enumerated by a concrete loop): what the observing delivery ran stays an in-order prefix of what later deliveries run", bounds="1 nested (register; deliver) at each of <=9 points"),
             C05_UNREG_ANY, C01_LR_REG,
+            H("c01::proofs_registry::c02_lr_registry_delivery_vs_register", T, lr=True, timeout=3000, also=["C01"],
+              what="registry level, two real threads: thread 0 registers a third action for the signal with the real register(), thread 1 receives the signal through the real dispatcher at any instant: the delivery runs the old list or the old list followed by the new action, in order; nothing is released",
+              bounds="Lal-Reps K=3 rounds, 2 threads, spin bound 3, one delivery"),
             H("c05::proofs::c05_step_deliver", T, timeout=3000, what="one delivery from any valid state", bounds="symbolic state"),
             H("c02::proofs::c02_nest_unregister", Q, timeout=2400, what="deliveries nested at every shim point of unregister(): each runs the old or the new action list", bounds="NEST depth 1, <=2 nested deliveries"),
             H("c02::proofs::c02_nest_register", Q, timeout=2400, what="deliveries nested at every shim point of register()", bounds="NEST depth 1, <=2 nested deliveries")],
